@@ -1,2 +1,236 @@
--- C15 property theorems (to be written)
-import Nq.Basic
+/-
+  C15 — Retries back off quadratically, expire with the queue lifetime, earliest first.
+
+  Model: `Nq.Sched` (qmail-send.c squareroot/nextretry/pass_dochan/del_dochan/job_close/pqrun/pqfinish/
+  pqadd/pass_selprep and prioq.c), tied to the source by `harness/c15_sched.c` (exhaustive square roots,
+  dense nextretry grid, exhaustive/random heap histories, daemon histories over a real queue directory)
+  and by the translator (chanskip[], SLEEP_FOREVER).  Predicates: `Nq.Spec.Sched`.
+  Only property theorems live here.
+-/
+import Nq.Lemmas.SchedSqrt
+import Nq.Lemmas.SchedDaemon
+
+namespace Nq.Props.C15
+open Nq Nq.Sched Nq.Spec.Sched Nq.Lemmas.Sched
+
+/-! ### the integer square root -/
+
+/-- **`squareroot` is exact on every age `0 … 2³²−1`**: `r² ≤ x < (r+1)²`. -/
+theorem C15_sqrt (x : Int) (h0 : 0 ≤ x) (h : x < 4294967296) : IsSqrt x (squareroot x) := by
+  unfold squareroot
+  apply sqLoop_spec x 16 0 0 (Int.le_refl 0) (by ring) (by simpa using h0)
+  norm_num; exact h
+
+/-- complement: from `2³²` on the root saturates at 65535 … -/
+theorem C15_sqrt_saturated (x : Int) (h : 4294967296 ≤ x) : squareroot x = 65535 := by
+  unfold squareroot
+  rw [sqLoop_sat x 16 0 0 (Int.le_refl 0) (by ring) (by norm_num; exact h)]
+  norm_num
+
+/-- … and a negative argument (never passed by `nextretry`) gives 0. -/
+theorem C15_sqrt_negative (x : Int) (h : x < 0) : squareroot x = 0 := sqLoop_neg x h 16
+
+/-- no intermediate of the C loop overflows: `1 << (j+j)` fits an `int`, everything else a `long`,
+for every non-negative `long` argument (9223372036854775808 = 2⁶³). -/
+theorem C15_sqrt_nooverflow (x : Int) (h0 : 0 ≤ x) (h : x < 9223372036854775808) : sqLoopOk x 16 0 0 = true :=
+  sqLoopOk_inv x h0 h 16 0 0 (Nat.le_refl _) (Int.le_refl 0) (by norm_num) (by ring) (by simpa using h0)
+
+/-! ### the retry time -/
+
+/-- **The retry time is strictly in the future** for every age below `2³²` (including a birth time
+that lies after `recent`, i.e. a clock that went backwards), and for a birth time in the past it is
+exactly `birth + (⌊√age⌋ + 10 or 20)²`. -/
+theorem C15_future (recent birth : Int) (c : Chan) (h : recent - birth < 4294967296) :
+    recent < nextretry recent birth c ∧ (birth ≤ recent → IsRetry recent birth c (nextretry recent birth c)) := by
+  unfold nextretry
+  have hs := skip_pos c
+  rw [chanskip_eq]
+  by_cases hb : birth > recent
+  · rw [if_pos hb]
+    refine ⟨?_, fun hle => absurd hb (Int.not_lt.mpr hle)⟩
+    nlinarith
+  · rw [if_neg hb]
+    have hsq := C15_sqrt (recent - birth) (by omega) h
+    refine ⟨?_, fun _ => ⟨squareroot (recent - birth), hsq, rfl⟩⟩
+    obtain ⟨r0, _, r2⟩ := hsq
+    generalize squareroot (recent - birth) = s at *
+    nlinarith
+
+/-- complement: for ages from `2³²` (136 years) on, the root is saturated; the retry time is then
+`birth + (65535 + skip)²` and it is in the future only while the age is below that square. -/
+theorem C15_future_saturated (recent birth : Int) (c : Chan) (h : 4294967296 ≤ recent - birth) :
+    nextretry recent birth c = birth + (65535 + skip c) * (65535 + skip c) ∧
+    (recent < nextretry recent birth c ↔ recent - birth < (65535 + skip c) * (65535 + skip c)) := by
+  unfold nextretry
+  rw [chanskip_eq, if_neg (by omega), C15_sqrt_saturated _ h]
+  exact ⟨rfl, by constructor <;> intro h' <;> linarith⟩
+
+/-- **Bounded time to expiry.** While a message is not older than the queue lifetime, each retry is
+scheduled at least `skip² ≥ 100` seconds after the attempt and no later than
+`birth + (⌊√lifetime⌋ + skip)²`; so the attempts' times strictly increase and the first attempt made
+after `birth + lifetime` (the expiring one, `C15_dying`) is due by that bound. -/
+theorem C15_bounded (recent birth lifetime L : Int) (c : Chan) (hb : birth ≤ recent)
+    (hl : recent ≤ birth + lifetime) (h32 : lifetime < 4294967296) (hL : IsSqrt lifetime L) :
+    recent + 100 ≤ nextretry recent birth c ∧ nextretry recent birth c ≤ birth + (L + skip c) * (L + skip c) := by
+  have hage : recent - birth < 4294967296 := by omega
+  obtain ⟨s, hs, he⟩ := (C15_future recent birth c hage).2 hb
+  rw [he]
+  have hmono := isSqrt_mono hs hL (by omega)
+  have hk := skip_pos c
+  obtain ⟨s0, s1, s2⟩ := hs
+  constructor
+  · nlinarith
+  · have : s + skip c ≤ L + skip c := by omega
+    have h0 : 0 ≤ s + skip c := by omega
+    nlinarith
+
+/-! ### the priority queue (prioq.c) -/
+
+/-- `prioq_insert` keeps the heap order and adds exactly the new entry. -/
+theorem C15_heap_insert (q : PQ) (e : Elt) (h : Heap q) :
+    Heap (q.insert e) ∧ (q.insert e).toList.Perm (e :: q.toList) := insert_spec q e h
+
+/-- `prioq_min` returns the root, which is a minimum of everything queued. -/
+theorem C15_heap_min (q : PQ) (pe : Elt) (h : Heap q) (hm : q.min = some pe) :
+    pe ∈ q.toList ∧ ∀ e ∈ q.toList, pe.dt ≤ e.dt := by
+  obtain ⟨hne, hm0⟩ := min_eq q pe hm
+  refine ⟨?_, fun e he => by rw [hm0]; exact heap_root_le_mem q h e he⟩
+  have h0 : 0 < q.size := by omega
+  rw [hm0, getElem!_pos q 0 h0]
+  exact Array.mem_toList_iff.mpr (Array.getElem_mem h0)
+
+/-- `prioq_delmin` keeps the heap order and removes exactly the entry `prioq_min` returned. -/
+theorem C15_heap_delmin (q : PQ) (pe : Elt) (h : Heap q) (hm : q.min = some pe) :
+    Heap q.delmin ∧ q.toList.Perm (pe :: q.delmin.toList) := by
+  obtain ⟨hne, hm0⟩ := min_eq q pe hm
+  rw [hm0]; exact delmin_spec q h hne
+
+/-- complement: on an empty queue `prioq_min` fails and `prioq_delmin` does nothing. -/
+theorem C15_heap_empty (q : PQ) (hm : q.min = none) : q.delmin = q ∧ q.toList = [] := by
+  have := min_none q hm
+  refine ⟨by unfold PQ.delmin; rw [if_pos this], ?_⟩
+  apply List.eq_nil_of_length_eq_zero; simpa using this
+
+/-- **For every sequence of insertions and deletions** the array is a heap (so every later
+`prioq_min` is a minimum, by `C15_heap_min`). -/
+theorem C15_heap (ops : List PQ.Op) : Heap (PQ.run #[] ops) := heap_run ops #[] heap_empty
+
+/-! ### the daemon: which message is started, and when -/
+
+/-- **No early start, earliest-due first.** `pass_dochan` opens a job only for an entry whose due time
+has passed, that entry is a minimum of the channel's heap, and exactly it leaves the heap. -/
+theorem C15_order (recent : Int) (ja : Bool) (q q' : PQ) (pe : Elt) (h : Heap q)
+    (hs : passStart recent ja q = some (pe, q')) :
+    pe.dt ≤ recent ∧ (∀ e ∈ q.toList, pe.dt ≤ e.dt) ∧ q.toList.Perm (pe :: q'.toList) ∧ Heap q' :=
+  (passStart_spec recent ja q q' pe h hs).2
+
+/-- **Promptness.** If a job slot is free and anything on the channel is due, a job is opened. -/
+theorem C15_order_prompt (recent : Int) (q : PQ) (h : Heap q) (e : Elt) (he : e ∈ q.toList)
+    (hdue : e.dt ≤ recent) : (passStart recent true q).isSome = true := passStart_prompt recent q h e he hdue
+
+/-- Serving the channel until nothing more is started: the started messages come out in non-decreasing
+due-time order, they are exactly the due ones, and everything left is not yet due. -/
+theorem C15_order_drain (recent : Int) (q : PQ) (h : Heap q) :
+    (drainDue recent q.size q).1.Pairwise (fun a b => a.dt ≤ b.dt) ∧
+    q.toList.Perm ((drainDue recent q.size q).1 ++ (drainDue recent q.size q).2.toList) ∧
+    (∀ e ∈ (drainDue recent q.size q).1, e.dt ≤ recent) ∧
+    (∀ e ∈ (drainDue recent q.size q).2.toList, recent < e.dt) :=
+  let r := drainDue_spec recent q.size q h (Nat.le_refl _)
+  ⟨r.1, r.2.1, r.2.2.1, r.2.2.2.1⟩
+
+/-- `pass_selprep`: the daemon's wake-up time is no later than any due time on the channel. -/
+theorem C15_wakeup (w : Int) (q : PQ) (h : Heap q) :
+    wakeupChan w q ≤ w ∧ ∀ e ∈ q.toList, wakeupChan w q ≤ e.dt := by
+  unfold wakeupChan
+  cases hm : q.min with
+  | none =>
+    have := (C15_heap_empty q hm).2
+    simp [this]
+  | some pe =>
+    simp only
+    have hmin := (C15_heap_min q pe h hm).2
+    by_cases hc : w > pe.dt
+    · rw [if_pos hc]; exact ⟨by omega, hmin⟩
+    · rw [if_neg hc]; exact ⟨Int.le_refl _, fun e he => by have := hmin e he; omega⟩
+
+/-- After a pass that leaves recipients to do, the message goes back into the heap with exactly the
+retry time computed when the pass began — which was then strictly in the future (`C15_future`), so by
+`C15_order` it is not tried again before it. -/
+theorem C15_reschedule (recent lifetime birth : Int) (c : Chan) (id numtodo : Nat) (q : PQ) (h : Heap q)
+    (hn : numtodo ≠ 0) :
+    ∃ q', jobClose (jobOpen recent lifetime birth c) id numtodo q = some q' ∧ Heap q' ∧
+      q'.toList.Perm ({ dt := nextretry recent birth c, id := id } :: q.toList) := by
+  refine ⟨q.insert { dt := nextretry recent birth c, id := id }, ?_, ?_⟩
+  · simp [jobClose, jobOpen, hn]
+  · exact insert_spec q _ h
+
+/-! ### expiry -/
+
+/-- **Older than the queue lifetime ⇒ the pass is the last one**: the flag is set exactly when
+`recent > birth + lifetime`, and under it every report of the letters qmail-lspawn/qmail-rspawn
+produce (K, Z, D) finishes the recipient: a `Z` is handled as `D`, bounced with the report text followed
+by the "too long" sentence; no reported recipient stays to be retried, and a pass that ends with nothing
+to do removes the message from the channel. -/
+theorem C15_dying (recent lifetime birth : Int) (c : Chan) (text : Bytes) :
+    ((jobOpen recent lifetime birth c).dying = true ↔ recent > birth + lifetime) ∧
+    report true 90 text = .failure (text ++ tooLong) ∧
+    (∀ letter : Byte, letter = 75 ∨ letter = 90 ∨ letter = 68 → (report true letter text).staysTodo = false) ∧
+    (∀ (job : Job) (id : Nat) (q : PQ), jobClose job id 0 q = none) := by
+  refine ⟨by simp [jobOpen], by simp [report], ?_, by intro job id q; simp [jobClose]⟩
+  intro letter hl
+  rcases hl with hl | hl | hl <;> subst hl <;> simp [report, Act.staysTodo]
+
+/-- before expiry a temporary failure leaves the recipient to be retried (and nothing is bounced) -/
+theorem C15_dying_not (text : Bytes) : report false 90 text = .deferral ∧ Act.deferral.staysTodo = true := by
+  simp [report, Act.staysTodo]
+
+/-- complement: a report that is none of K, Z, D is "mangled" and deferred — even in the expiring pass -/
+theorem C15_dying_mangled (dying : Bool) (letter : Byte) (text : Bytes) (h1 : letter ≠ 75) (h2 : letter ≠ 90)
+    (h3 : letter ≠ 68) : report dying letter text = .mangled := by
+  simp [report, h1, h2, h3]
+
+/-! ### restart and ALRM -/
+
+/-- **The schedule survives a clean restart.** TERM: `pqfinish` stores every due time as the channel
+file's mtime; the new process's `pqstart` reads them back: the heap holds the same entries again
+(each message is queued once per channel; `ids` is the directory listing in any order). -/
+theorem C15_persist (q : PQ) (m0 : Mtimes) (ids : List Nat) (h : Heap q)
+    (hn : (q.toList.map (·.id)).Nodup) (hids : ids.Perm (q.toList.map (·.id))) :
+    Heap (pqstart (m0.writeAll (pqfinish q.size q)) ids) ∧
+    (pqstart (m0.writeAll (pqfinish q.size q)) ids).toList.Perm q.toList := restart_perm q m0 ids h hn hids
+
+/-- **ALRM makes everything due at once**: after `pqrun` every entry has `dt = recent`, the same
+messages are queued, and (by `C15_order_prompt`) a job is opened as soon as a slot is free. -/
+theorem C15_alrm (recent : Int) (q : PQ) :
+    (∀ e ∈ (pqrun recent q).toList, e.dt = recent) ∧
+    (pqrun recent q).toList.map (·.id) = q.toList.map (·.id) ∧ Heap (pqrun recent q) ∧
+    (q.size ≠ 0 → (passStart recent true (pqrun recent q)).isSome = true) := by
+  have hall : ∀ e ∈ (pqrun recent q).toList, e.dt = recent := by
+    intro e he
+    rw [pqrun_toList] at he
+    obtain ⟨x, _, hx⟩ := List.mem_map.mp he
+    rw [← hx]
+  refine ⟨hall, by rw [pqrun_toList, List.map_map]; rfl, pqrun_heap recent q, ?_⟩
+  intro hne
+  have hl : (pqrun recent q).toList ≠ [] := by
+    rw [pqrun_toList]; intro h
+    have := congrArg List.length h
+    simp at this; exact hne (by simp [this])
+  obtain ⟨e, he⟩ := List.exists_mem_of_ne_nil _ hl
+  exact passStart_prompt recent _ (pqrun_heap recent q) e he (Int.le_of_eq (hall e he))
+
+/-! ### Non-vacuity: concrete inputs meeting the hypotheses -/
+
+example : squareroot 1000000 = 1000 ∧ squareroot 999999 = 999 ∧ squareroot 4294967295 = 65535 := by decide
+/-- a remote message born 1 000 000 s ago: next try 1020² s after its birth -/
+example : nextretry 1759000000 1758000000 .rem = 1758000000 + 1020 * 1020 := by decide
+example : (4294967295 : Int) - 0 < 4294967296 := by decide
+example : (PQ.run #[] [.ins ⟨5, 1⟩, .ins ⟨3, 2⟩, .ins ⟨9, 3⟩, .ins ⟨3, 4⟩, .del]).toList
+    = [⟨3, 4⟩, ⟨5, 1⟩, ⟨9, 3⟩] := by decide
+example : passStart 10 true #[⟨3, 4⟩, ⟨5, 1⟩, ⟨9, 3⟩] = some (⟨3, 4⟩, #[⟨5, 1⟩, ⟨9, 3⟩]) := by decide
+example : passStart 2 true #[⟨3, 4⟩, ⟨5, 1⟩, ⟨9, 3⟩] = none := by decide
+/-- the default lifetime 604800 has root 777: the expiring attempt is due within 797² s of birth (remote) -/
+example : IsSqrt 604800 777 := by decide
+example : (jobOpen 1000 100 800 .loc).dying = true ∧ (jobOpen 900 100 800 .loc).dying = false := by decide
+
+end Nq.Props.C15
